@@ -733,7 +733,12 @@ func genKernel(h *vh.H, i int) string {
 			case 2:
 				segs = append(segs, vh.Pick(h, literalSegs))
 			case 3:
-				segs = append(segs, vh.Pick(h, []string{"", ":", ":nosuch", "::x", "a:b", ":" + genName(h)}))
+				extra := []string{"", ":", ":nosuch", "::x", "a:b", ":" + genName(h)}
+				if len(names) > 0 {
+					// a doubled colon: TrimPrefix leaves ":name", which is not a property
+					extra = append(extra, "::"+vh.Pick(h, names), "::"+vh.Pick(h, names))
+				}
+				segs = append(segs, vh.Pick(h, extra))
 			default:
 				segs = append(segs, genName(h))
 			}
@@ -744,11 +749,28 @@ func genKernel(h *vh.H, i int) string {
 		}
 		return strings.Join(toks, " ")
 	case 3: // name
-		base := vh.Pick(h, []string{"Foo", "Bar", "X", "", "FooService", "Events", "Topic"})
-		suffix := vh.Pick(h, []string{"Service", "Sandbox", "Events", "Topic", "service", "Srv", "", "ServiceX", "Topics", "TopicService"})
-		method := vh.Pick(h, []string{"Get", "M", "DoIt", "Hello"})
-		in := method + vh.Pick(h, []string{"Request", "Request", "Message", "Message", "Req", "", "Response"})
-		outN := vh.Pick(h, []string{method + "Response", method + "Response", "google.protobuf.Empty", "google.protobuf.Empty", "google.api.HttpBody", method + "Reply", in})
+		base := vh.Pick(h, []string{"Foo", "Bar", "X", "", "FooService", "Events", "Topic", "FooEvents", "ATopic"})
+		method := vh.Pick(h, []string{"Get", "M", "DoIt", "Hello", "HttpBody"})
+		var suffix, in, outN string
+		switch h.Rng.IntN(4) {
+		case 0, 1: // what the producer emits for a service method
+			suffix, in, outN = vh.Pick(h, []string{"Service", "Service", "Sandbox"}), method+"Request", vh.Pick(h, []string{method + "Response", "google.api.HttpBody"})
+		case 2: // … for a topic message
+			suffix, in, outN = "Topic", method+"Message", "google.protobuf.Empty"
+		default:
+			suffix, in, outN = "Events", method+"Message", "google.protobuf.Empty"
+		}
+		// perturb one element in half of the cases
+		if h.Chance(1, 2) {
+			switch h.Rng.IntN(3) {
+			case 0:
+				suffix = vh.Pick(h, []string{"service", "Srv", "", "ServiceX", "Topics", "TopicService", "ServiceTopic", "Event", "Sandboxes"})
+			case 1:
+				in = method + vh.Pick(h, []string{"Req", "", "Response", "request", "Message", "Request"})
+			default:
+				outN = vh.Pick(h, []string{method + "Reply", in, "google.protobuf.Empty", "google.api.HttpBody", method + "Response", "Response"})
+			}
+		}
 		svc := base + suffix
 		if svc == "" {
 			svc = "S"
